@@ -1,7 +1,7 @@
 """C07 - request body streams deliver exactly the declared body: no loss, no over-read."""
 PROP = 'C07'
-LEAN_MODULES = ['FalconModel.WsgiStreamProofs', 'FalconModel.AsgiStreamProofs', 'FalconModel.AsgiHistory']
-DRIVERS = ['w7fdriver', 'asfdriver']
+LEAN_MODULES = ['FalconModel.WsgiStreamProofs', 'FalconModel.AsgiStreamProofs', 'FalconModel.AsgiHistory', 'FalconModel.StreamGlue', 'FalconModel.StreamGlueProofs']
+DRIVERS = ['w7fdriver', 'asfdriver', 'sgdriver']
 THEOREMS = [
     # WSGI BoundedStream (falcon/stream.py), model Ws7F = the code after the F02/F03 repairs
     'Ws7F.read_step', 'Ws7F.readline_step', 'Ws7F.readlines_step', 'Ws7F.next_step', 'Ws7F.runOp_step',
@@ -11,6 +11,16 @@ THEOREMS = [
     'AsF.runOp_step', 'AsF.history_refines', 'AsF.history_prefix_of_declared', 'AsF.history_whole_at_eof', 'AsF.good_init',
     # the pre-repair models violate the same statements (regression witnesses, by `decide`)
     'Ws7.f02_witness', 'Ws7.f03_witness', 'f04_witness', 'f05_witness', 'f19_witness',
+    # the glue request -> stream (falcon/request.py content_length/_get_wrapped_wsgi_input/bounded_stream, falcon/asgi/request.py __init__ header dict/
+    # content_length/stream), model Sg on top of C09's Hp.contentLength/contentLengthB
+    'Sg.digitsGo_iff', 'Sg.pyIntW_iff', 'Sg.declares_iff', 'Sg.declares_digits', 'Sg.declares_toDigits', 'Sg.declares_unique', 'Sg.contentLengthW_spec',
+    'Sg.wsgi_bound_eq_declared', 'Sg.wsgi_bound_rfc', 'Sg.wsgi_bound_nonneg',
+    'Sg.asgi_bound', 'Sg.asgi_bound_some_iff', 'Sg.asgi_bound_invalid_iff', 'Sg.asgi_stream_access',
+    'Sg.wsgi_accompanying_headers_irrelevant', 'Sg.wsgi_bound_congr', 'Sg.buildHeaders_lookup_cl', 'Sg.asgi_accompanying_headers_irrelevant', 'Sg.asgi_bound_congr',
+    'Sg.accompanying_headers_irrelevant',
+    'Sg.reqOps_eq', 'Sg.wsgi_request_stream_refines_cursor', 'Sg.wsgi_request_stream_from_header_text', 'Sg.wsgi_request_stream_no_usable_length', 'Sg.wsgi_request_exhaust',
+    'Sg.areqOps_eq', 'Sg.absS_init_some', 'Sg.absS_init_none', 'Sg.asgi_request_history', 'Sg.asgi_request_stream_refines_cursor', 'Sg.asgi_request_stream_unbounded',
+    'Sg.asgi_request_stream_invalid',
 ]
 STATEMENTS = {
     'AsF.history_refines': 'ASGI: from a fresh stream whose events contain the end of the body, after ANY sequence of read(n) (any integer n) / read() / readall() / exhaust() / async-for abandoned after any number of chunks: consumed ++ still-to-come = declared body, tell() advanced by exactly |consumed|, the bytes handed to the app in call order are a prefix of consumed (all of it without exhaust), and no operation blocked on receive()',
@@ -21,19 +31,40 @@ STATEMENTS = {
     'AsF.readall_refines': 'readall returns exactly the rest of the declared body, tell advances by its length, remaining = 0',
     'AsF.exhaust_refines': 'exhaust discards exactly what was still declared and counts each byte once',
     'AsF.iterate_refines': 'async-for abandoned after k chunks handed out the next part of the declared body and leaves remaining = 0 or a complete event list (no later op can block)',
+    'Sg.pyIntW_iff': 'Python int() on a Latin-1 str / a byte string (C09 model Hp.pyIntW) accepts EXACTLY: optional whitespace, optional sign, D+(_D+)* read in decimal, optional whitespace',
+    'Sg.contentLengthW_spec': 'for EVERY header value, req.content_length is: None for a missing/empty value; n for a text that Declares n (1*DIGIT, or the liberal int() spellings: surrounding whitespace, "+", "-" before zero, single underscores between digits); the 400 for every other text',
+    'Sg.declares_digits': 'RFC 9110 Content-Length = 1*DIGIT: a non-empty digit string declares its decimal value',
+    'Sg.wsgi_bound_eq_declared': 'WSGI, every environ: the length handed to BoundedStream is >= 0; it is n when CONTENT_LENGTH declares n; it is 0 when the variable is missing, empty or unusable (not a number, negative, ...)',
+    'Sg.asgi_bound': 'ASGI, every header dict: no/empty content-length -> None (read until the final event); a text that declares n -> n; every other text -> HTTPInvalidHeader; nothing else (no negative or guessed bound)',
+    'Sg.asgi_stream_access': 'fresh non-WebSocket request: an unusable content-length raises at req.stream and no stream is created/cached, no event consumed; otherwise the stream is BoundedStream(receive, first_event, content_length = that bound), cached',
+    'Sg.accompanying_headers_irrelevant': 'on both stacks the bound is unchanged when every environ entry / header other than Content-Length is dropped (Transfer-Encoding, X-Content-Length, Expect, ...)',
+    'Sg.buildHeaders_lookup_cl': 'the _asgi_headers dict built by Request.__init__ maps content-length to the value of the LAST content-length entry of scope[headers] (singleton header: not comma-joined)',
+    'Sg.reqOps_eq': 'a history performed through req.bounded_stream (property accessed again for every operation) is the same history on the ONE stream object built at the first access (lazy caching is invisible)',
+    'Sg.wsgi_request_stream_refines_cursor': 'END TO END (WSGI): for every request and every history of read/readline/readlines/next through req.bounded_stream, with n = the bound computed from the CONTENT_LENGTH text: outputs = next bytes of body[:n], exactly the rest of body[:n] remains, wsgi.input advanced by exactly the bytes returned, budget n - returned >= 0',
+    'Sg.wsgi_request_stream_from_header_text': 'a CONTENT_LENGTH text that declares n makes req.bounded_stream a cursor over body[:n] for every history',
+    'Sg.wsgi_request_stream_no_usable_length': 'a missing/unusable CONTENT_LENGTH: nothing is ever returned through req.bounded_stream and wsgi.input is never advanced',
+    'Sg.asgi_request_stream_refines_cursor': 'END TO END (ASGI): a content-length text that declares n makes req.stream a cursor over body[:n] (body = everything the server delivers incl. the first event up to its final event/disconnect) for every history of read(k)/read()/readall/exhaust/abandoned iteration: consumed ++ to-come = body[:n], tell = |consumed|, app bytes a prefix of consumed, no access raised, nothing blocked',
+    'Sg.asgi_request_stream_unbounded': 'no (or an empty) content-length: req.stream is a cursor over the whole body up to the final event (bodies < 2^63 bytes)',
+    'Sg.asgi_request_stream_invalid': 'an unusable content-length: the first req.stream access raises whatever the operation; nothing was received or read',
 }
 TRUSTED = [
     'raw file-object semantics of wsgi.input (read/readline with a short-read oracle) as modelled in WsgiStreamFixed.Raw',
     'the scripted receive() raises a BaseException when it has nothing left to deliver: that is the "would block" outcome (no timeouts involved)',
+    "Python int() on Latin-1 str / bytes as modelled by C09's Hp.pyIntW (tied by the C09 correspondence and again here by 'request glue = Sg model'); header texts of more than 4300 digits (CPython's int-conversion limit) are not generated",
+    'the WSGI environ / the ASGI scope are what the server made of the request line and header block (duplicate-header policy, Transfer-Encoding precedence are the server\'s); the glue model starts from environ / scope[headers]',
 ]
 ASSUMPTIONS = [
-    'sizes passed to read/readline/readlines are None or ints; Content-Length >= 0',
+    'sizes passed to read/readline/readlines are None or ints; a stream constructed directly (not through the request) is given Content-Length >= 0 - through the request that is proved (Sg.wsgi_bound_nonneg, Sg.asgi_bound)',
+    'the Content-Length text is a Latin-1 str (WSGI, PEP 3333) / a byte string (ASGI); ASGI header names arrive lower-cased (ASGI spec); environ values other than str are not modelled',
     'close()/closed-stream errors of the ASGI stream are covered by the correspondence and oracle only (guard tests, no theorem); a second iteration while one is suspended is in the history theorem (it answers notAllowed and changes nothing)',
     're-entrant use (an operation on the same ASGI stream from inside the body of an `async for` over it) is generated with inner operations that consume to a chunk border or to the end (readall, read(), read(0), exhaust, tell); a sized read that leaves part of an event buffered while the iteration is parked is outside the domain: the parked iteration does not look at the buffer again (the statement speaks of sequences of operations)',
 ]
 RULE = ('random bodies over {a,b,c,\\n} (len 0..20) x Content-Length in {absent, exact, shorter, longer, 0} x short-read oracles / '
         'ASGI event shapes (missing body/more_body keys, empty and oversized chunks, disconnect anywhere) x histories of 1..7 operations; '
-        'a third of the cases go through falcon.Request.bounded_stream / falcon.asgi.Request.stream; '
+        'a third of the cases go through falcon.Request.bounded_stream / falcon.asgi.Request.stream (the property re-accessed for every operation) with the Content-Length as TEXT: '
+        '1*DIGIT, liberal spellings (whitespace, +, leading zeros, underscores, -0), empty, missing, unusable (negative, not a number, lists, hex, bad underscores, non-int() whitespace), plus accompanying headers; '
+        'these cases are also replayed on the request-level model (sgdriver: header text -> bound -> stream -> the same operations); plus glue-only cases (random header texts up to 25 digits with random '
+        'insertions, duplicate content-length entries, repeated other headers, WebSocket scopes) comparing the bound the real stream was built with; '
         'every byte string handed out (read/readline/next results, readlines items and the list, ASGI read/readall results and iteration chunks) must be exactly a bytes (type(x) is bytes, not ==); '
         'plus, for the WSGI stream, ALL histories of length <= 3 (quick) / <= 4 (thorough) over a 7-operation alphabet on 18 (body, Content-Length, short-read) combinations; non-trivial = at least one operation returned data; distinct = distinct (stream kind, construction line, op list)')
 PARTIAL = ''
@@ -47,9 +78,37 @@ EXTRA_HEADERS = [('Transfer-Encoding', 'chunked'), ('Transfer-Encoding', 'identi
                  ('Content-MD5', 'Q2hlY2sgSW50ZWdyaXR5IQ=='), ('Range', 'bytes=0-1')]
 
 
+def _cl_text(rnd, n, stack, p_unusable=0.12, p_liberal=0.12, p_empty=0.04, p_missing=0.04):
+    """The Content-Length header as TEXT for the declared length n -> (text | None, kind).  kind: rfc (1*DIGIT), liberal (what int() also reads as n),
+    unusable (declares nothing: WSGI -> no body, ASGI -> 400), empty, missing."""
+    x = rnd.random(); d = str(n)
+    ws = [' ', '\t', '\n', '\x0b', '\x0c', '\r', '\r\n', '  '] + (['\x85', '\xa0'] if stack == 'wsgi' else [])   # str.isspace-minus-\x1c..\x1f for str, bytes.isspace for bytes
+    if x < p_unusable:
+        bad = ['-5', '-1', '-0x5', 'abc', '1.5', '5;q=1', '5, 5', '0x10', '-' + str(max(n, 1)), '--5', '1e3', '1__0', '_5', '5_', '+ 5', '- 0', '\x1c5', '5\x1f', '\xb2', '5\x00',
+               ' ', '+', '-', d + ',' + d, d + ' ' + d, d + '.0', '+-' + d]
+        if stack == 'asgi': bad += ['\x855', '5\xa0']          # not whitespace for int(bytes)
+        return rnd.choice(bad), 'unusable'
+    x -= p_unusable
+    if x < p_liberal:
+        w1, w2 = rnd.choice(ws), rnd.choice(ws)
+        return rnd.choice([w1 + d, d + w1, w1 + d + w2, '+' + d, '0' + d, '000' + d, '+0' + d, w1 + '+' + d + w2, (d[0] + '_' + d[1:]) if len(d) > 1 else '0_' + d,
+                           '-0' if n == 0 else '+' + d + w2]), 'liberal'
+    x -= p_liberal
+    if x < p_empty: return '', 'empty'
+    x -= p_empty
+    if x < p_missing: return None, 'missing'
+    return d, 'rfc'
+
+
+def _pairs_hex(items):
+    from runner import hx
+    return ','.join(f'{hx(k)}={hx(v)}' for k, v in items) or '-'
+
+
 def run(ctx):
     _wsgi(ctx)
     _asgi(ctx)
+    _glue(ctx)
 
 
 # ------------------------------------------------------------------ WSGI
@@ -83,26 +142,40 @@ def _wsgi(ctx):
 
     sess = ctx.session('wsgi-boundedstream = Ws7F model', 'w7fdriver',
                        norm=lambda s: s.replace('lines  ', 'lines '))
+    # the same via_request cases on the request-level model: environ (header TEXT) -> bound -> BoundedStream -> operations through req.bounded_stream
+    sg = ctx.session('wsgi request glue = Sg model (environ -> content_length -> bound -> req.bounded_stream)', 'sgdriver',
+                     norm=lambda s: s.replace('lines  ', 'lines '))
 
     def wcase(data, cl, shorts, via_req, ops, tag):
         L = len(data)
         raw = Raw(data, shorts)
+        req = None
         if via_req:
-            # through the request object: any accompanying headers (they never widen the bound), and Content-Length values that declare
-            # no usable length (negative, not a number): those declare no body - nothing is returned and the server stream is never asked
-            hdrs = {'Content-Length': str(cl)}
-            if rnd.random() < 0.12:
-                hdrs['Content-Length'] = rnd.choice(['-5', '-1', '-0x5', 'abc', '1.5', '5;q=1', '5, 5', '0x10', '-' + str(max(cl, 1)), '--5', '1e3'])
+            # through the request object: the Content-Length as TEXT (1*DIGIT, liberal int() spellings, empty, missing, unusable: those declare no body -
+            # nothing is returned and the server stream is never asked), any accompanying headers (they never change the bound)
+            text, kind = _cl_text(rnd, cl, 'wsgi')
+            if kind in ('unusable', 'empty', 'missing'):
                 cl = 0
-                ctx.count('wsgi_content_length_unusable')
+            ctx.count('wsgi_content_length_' + kind)
+            hdrs = {}
             if rnd.random() < 0.4:
                 for hn, hv in rnd.sample(EXTRA_HEADERS, rnd.randint(1, 3)):
                     hdrs[hn] = hv
                 ctx.count('wsgi_accompanying_headers')
             env = ft.create_environ(method=rnd.choice(['POST', 'PUT', 'PATCH', 'GET', 'DELETE']), path='/', headers=hdrs)
-            env['CONTENT_LENGTH'] = hdrs['Content-Length']          # (verbatim: create_environ may normalise)
+            env.pop('CONTENT_LENGTH', None)
+            if text is not None:
+                env['CONTENT_LENGTH'] = text                      # (verbatim: create_environ may normalise)
             env['wsgi.input'] = raw
-            s = falcon.Request(env).bounded_stream
+            req = falcon.Request(env)
+            s = req.bounded_stream
+            built_with = s._bytes_remaining
+            sg.case({'content_length_text': text, 'kind': kind, 'gen': tag})
+            sg.op(f"wreq {_pairs_hex((k.encode('latin-1'), v.encode('latin-1')) for k, v in env.items() if isinstance(v, str))} {hx(data)} {','.join(map(str, shorts)) or '-'}", 'ok')
+            sg.op('bound', f'bound {built_with}')
+            ctx.oracle('wsgi glue: req.bounded_stream is built with the declared Content-Length (0 when missing/empty/unusable), never a negative bound',
+                       built_with == cl, None if built_with == cl else f'CONTENT_LENGTH {text!r} ({kind}): BoundedStream built with {built_with}, declared {cl}',
+                       {'stream': 'wsgi', 'content_length_text': text, 'kind': kind, 'environ': {k: v for k, v in env.items() if isinstance(v, str)}})
         else:
             s = BoundedStream(raw, cl)
         newline = f"new {cl} {hx(data)} {','.join(map(str, shorts)) or '-'}"
@@ -112,29 +185,35 @@ def _wsgi(ctx):
         def st():
             return f" rem={s._bytes_remaining} eof={'true' if s.eof else 'false'} asked={raw.asked}"
         failed = None
+
+        def emit(line, reply):
+            sess.op(line, reply)
+            if via_req: sg.op(line, reply)
         for op, n in ops:
             hist.append([op, n]); d = None
+            if via_req:
+                s = req.bounded_stream      # the property is accessed again for every operation: it must be the same object, with the budget as it was left
             try:
                 with alarm(3):
                     if op == 'read':
-                        d = s.read(n); sess.op(f"read {'none' if n is None else n}", 'data ' + hx(d) + st())
+                        d = s.read(n); emit(f"read {'none' if n is None else n}", 'data ' + hx(d) + st())
                         if n is not None and n >= 0 and len(d) > n: failed = f'sized read returned {len(d)} > {n}'
                         got += d
                     elif op == 'readline':
-                        d = s.readline(n); sess.op(f"readline {'none' if n is None else n}", 'data ' + hx(d) + st())
+                        d = s.readline(n); emit(f"readline {'none' if n is None else n}", 'data ' + hx(d) + st())
                         if n is not None and n >= 0 and len(d) > n: failed = f'sized readline returned {len(d)} > {n}'
                         if b'\n' in d[:-1]: failed = 'readline returned more than one line'
                         got += d
                     elif op == 'readlines':
-                        d = s.readlines(n); sess.op(f"readlines {'none' if n is None else n}", ('lines ' + ' '.join(hx(x) for x in d)) + st())
+                        d = s.readlines(n); emit(f"readlines {'none' if n is None else n}", ('lines ' + ' '.join(hx(x) for x in d)) + st())
                         got += b''.join(d)
                     elif op == 'next':
                         try:
-                            d = next(s); sess.op('next', 'data ' + hx(d) + st()); got += d
+                            d = next(s); emit('next', 'data ' + hx(d) + st()); got += d
                         except StopIteration:
-                            sess.op('next', 'stop' + st())
+                            emit('next', 'stop' + st())
                     else:
-                        s.exhaust(n); sess.op(f'exhaust {n}', 'unit' + st())
+                        s.exhaust(n); emit(f'exhaust {n}', 'unit' + st())
                         if not s.eof and len(data) >= cl: failed = 'eof is False after exhaust() although the whole declared body was available'
                         if decl.startswith(got): got = decl  # exhaust discards the rest of the declared body
             except Hang:
@@ -186,6 +265,7 @@ def _wsgi(ctx):
             ops.append((op, rnd.choice(n)))
         wcase(data, cl, shorts, rnd.random() < 0.33, ops, 'random')
     sess.finish()
+    sg.finish()
 
 
 # ------------------------------------------------------------------ ASGI
@@ -210,6 +290,8 @@ def _asgi(ctx):
         pass
 
     sess = ctx.session('asgi-boundedstream = AsF model', 'asfdriver')
+    # the same via_request cases on the request-level model: scope['headers'] -> _asgi_headers -> content_length -> bound / 400 -> BoundedStream -> operations through req.stream
+    sg = ctx.session('asgi request glue = Sg model (scope headers -> content_length -> bound -> req.stream)', 'sgdriver')
 
     async def one():
         L = rnd.choice([0, 1, 3, 6, 10])
@@ -240,17 +322,48 @@ def _asgi(ctx):
             awaited[0] += 1
             if q: return q.pop(0)
             raise _WouldBlock()     # the server has nothing more to deliver: the stream would wait forever (deterministic, no timeout)
+        req = None
         if via_req:
-            hdrs = {} if cl is None else {'Content-Length': str(cl)}
+            # through the request object: the Content-Length as header TEXT (see _cl_text); a missing or empty header declares no length (the stream
+            # ends with the final event), an unusable one is refused with HTTPInvalidHeader (400) at req.stream - no stream, no bound
+            if cl is None:
+                text, kind = rnd.choice([(None, 'missing'), (None, 'missing'), ('', 'empty')])
+            else:
+                text, kind = _cl_text(rnd, cl, 'asgi', p_empty=0.0, p_missing=0.0)
+            ctx.count('asgi_content_length_' + kind)
+            hdrs = {}
             if rnd.random() < 0.4:
                 for hn, hv in rnd.sample(EXTRA_HEADERS, rnd.randint(1, 3)):
                     hdrs[hn] = hv
                 ctx.count('asgi_accompanying_headers')
             scope = ft.create_scope(method=rnd.choice(['POST', 'PUT', 'PATCH', 'GET', 'DELETE']), path='/', headers=hdrs)
-            scope['headers'] = [tuple(h) for h in scope['headers']]
-            if cl is None:
-                scope['headers'] = [h for h in scope['headers'] if h[0] != b'content-length']
-            s = falcon.asgi.Request(scope, receive, first_event=first).stream
+            hl = [h for h in (tuple(x) for x in scope['headers']) if h[0] != b'content-length']
+            if text is not None:
+                hl.insert(rnd.randint(0, len(hl)), (b'content-length', text.encode('latin-1')))
+            scope['headers'] = hl
+            req = falcon.asgi.Request(scope, receive, first_event=first)
+            sg.case({'content_length_text': text, 'kind': kind})
+            sg.op(f"areq 0 {'none' if first is None else enc(first)} {_pairs_hex(hl)} " + ' '.join(enc(e) for e in q), 'ok')
+            gcase = {'stream': 'asgi', 'content_length_text': text, 'kind': kind, 'headers': hl}
+            gname = 'asgi glue: req.stream is built with the declared Content-Length (None when missing/empty); an unusable one raises HTTPInvalidHeader and builds no stream'
+            try:
+                s = req.stream
+            except falcon.HTTPInvalidHeader:
+                sg.op('stream', 'invalidHeader')
+                ctx.oracle(gname, kind == 'unusable' and awaited[0] == 0, None if kind == 'unusable' and awaited[0] == 0 else f'content-length {text!r} ({kind}): req.stream raised HTTPInvalidHeader / awaited receive() {awaited[0]} times', gcase)
+                ctx.seen(('a-invalid', text, str(hl)), False)
+                return
+            sg.op('stream', f'stream rem={s._bytes_remaining} buf={hx(s._buffer)} tell={s.tell()}')
+            # built with the declared length: buffer + budget = min(first chunk, n) + (n - that) unless the first event was the final one (budget 0)
+            fb = first.get('body', b'') if first['type'] == 'http.request' else b''
+            more = bool(first.get('more_body', False)) if first['type'] == 'http.request' else False
+            want_buf = fb if cl is None else fb[:cl]
+            want_rem = 0 if not more else (2**63 if cl is None else cl - len(want_buf))
+            gok = kind != 'unusable' and s._buffer == want_buf and s._bytes_remaining == want_rem
+            ctx.oracle(gname, gok, None if gok else f'content-length {text!r} ({kind}): stream built with buffer {s._buffer!r} / budget {s._bytes_remaining}, declared {cl}: expected {want_buf!r} / {want_rem}', gcase)
+            if kind == 'unusable':
+                ctx.seen(('a-invalid', text, str(hl)), False)
+                return
         else:
             s = BoundedStream(receive, first_event=first, content_length=cl)
         newline = f"new {'none' if cl is None else cl} {'none' if first is None else enc(first)} " + ' '.join(enc(e) for e in q)
@@ -267,7 +380,13 @@ def _asgi(ctx):
         def st():
             return f" tell={s.tell()} eof={'true' if s.eof else 'false'} awaited={awaited[0]}"
         out = b''; hist = []; failed = None; exhausted = False; errored = False
+
+        def emit(line, reply):
+            sess.op(line, reply)
+            if via_req: sg.op(line, reply)
         for _ in range(rnd.randint(1, 6)):
+            if via_req:
+                s = req.stream          # the property is accessed again for every operation: the same (cached) object
             op = rnd.choice(['read', 'read', 'readall', 'iter', 'exhaust', 'close', 'iter_inner'])
             ctx.count('asgi_op_' + op)
             last_op = False
@@ -298,13 +417,13 @@ def _asgi(ctx):
                 elif op == 'read':
                     n = rnd.choice([None, -1, 0, 1, 2, 5, 100]); hist.append(['read', n])
                     line = f"read {'none' if n is None else n}"
-                    d = await s.read(n); sess.op(line, 'data ' + hx(d) + st())
+                    d = await s.read(n); emit(line, 'data ' + hx(d) + st())
                     if n is not None and n >= 0 and len(d) > n: failed = f'read({n}) returned {len(d)} bytes'
                     if type(d) is not bytes: failed = f'read({n}) returned a {type(d).__name__}, not a bytes'
                     out += d
                 elif op == 'readall':
                     hist.append(['readall']); line = 'readall'
-                    d = await s.readall(); sess.op(line, 'data ' + hx(d) + st()); out += d
+                    d = await s.readall(); emit(line, 'data ' + hx(d) + st()); out += d
                     if type(d) is not bytes: failed = f'readall() returned a {type(d).__name__}, not a bytes'
                 elif op == 'iter':
                     k = rnd.randint(1, 3); hist.append(['iter', k]); line = f'iter {k}'; acc = b''; chunk_types = []
@@ -320,23 +439,23 @@ def _asgi(ctx):
                         await it()
                     finally:
                         out += acc
-                    sess.op(line, 'data ' + hx(acc) + st())
+                    emit(line, 'data ' + hx(acc) + st())
                     if chunk_types: failed = f'the iteration yielded {chunk_types}, not bytes'
                 elif op == 'exhaust':
                     hist.append(['exhaust']); line = 'exhaust'
-                    await s.exhaust(); sess.op(line, 'unit' + st()); exhausted = True
+                    await s.exhaust(); emit(line, 'unit' + st()); exhausted = True
                     if not s.eof: failed = 'eof is False after exhaust()'
                 else:
-                    hist.append(['close']); line = 'close'; s.close(); sess.op(line, 'unit' + st())
+                    hist.append(['close']); line = 'close'; s.close(); emit(line, 'unit' + st())
             except _WouldBlock:
-                if line is not None: sess.op(line, 'BLOCKED')
+                if line is not None: emit(line, 'BLOCKED')
                 if complete: failed = f'{op} blocked on receive() although the server had delivered the end of the body / a disconnect'
                 break
             except OperationNotAllowed:
-                if line is not None: sess.op(line, 'notAllowed' + st())
+                if line is not None: emit(line, 'notAllowed' + st())
                 errored = True
             except ValueError:
-                if line is not None: sess.op(line, 'closedErr' + st())
+                if line is not None: emit(line, 'closedErr' + st())
                 errored = True
             if failed is None and not exhausted:
                 if not declared.startswith(out): failed = 'returned bytes are not a prefix of the declared body'
@@ -356,12 +475,144 @@ def _asgi(ctx):
             await one()
     asyncio.run(main())
     sess.finish()
+    sg.finish()
+
+
+# ------------------------------------------------------------------ glue only: header text -> the bound the stream is built with
+
+def _glue(ctx):
+    """Request-level glue alone (no body operations): random Content-Length TEXTS (up to 25 digits, random insertions of whitespace / signs / underscores /
+    separators, duplicates of the header, repeated other headers, X-Content-Length decoys, WebSocket scopes) -> what `req.bounded_stream` / `req.stream` is
+    built with, against the Sg model (`wreq`/`bound`, `areq`/`stream`), plus an oracle written from the statement: a 1*DIGIT value is the bound exactly, the
+    bound is never negative, a text without any digit declares nothing (WSGI: no body; ASGI: 400), no header at all = 0 (WSGI) / until the final event (ASGI)."""
+    import re
+    from runner import hx
+    import falcon
+    import falcon.asgi
+    import falcon.testing as ft
+    from falcon.errors import UnsupportedError
+    rnd = ctx.rng
+    ALPH = [' ', '\t', '\n', '\x0b', '\x0c', '\r', '\x1c', '\x1f', '\x85', '\xa0', '+', '-', '_', '.', ',', ';', 'e', 'x', '0', '7', '\x00', '\xb2']
+
+    def text_for():
+        x = rnd.random()
+        if x < 0.05: return None
+        if x < 0.10: return ''
+        n = rnd.choice([0, 1, 5, 9, 10, 42, 100, 65536, 2**31, 2**63, 2**64 + 1, 10**24 + 7, rnd.randint(0, 10**rnd.randint(1, 25))])
+        t = str(n)
+        if x < 0.45: return t
+        if x < 0.55: return rnd.choice(['0', '00', '000']) + t
+        for _ in range(rnd.randint(1, 3)):
+            i = rnd.randint(0, len(t)); t = t[:i] + rnd.choice(ALPH) + t[i:]
+        return t
+
+    OTHER = [('transfer-encoding', 'chunked'), ('x-content-length', '999999'), ('content-lengths', '7'), ('content_length', '7'), ('te', 'trailers'), ('expect', '100-continue'),
+             ('content-type', 'text/plain'), ('content-type', 'application/json'), ('cookie', 'a=b'), ('cookie', 'c=d'), ('accept', 'a/b'), ('accept', 'c/d'), ('host', 'h'), ('x-y', '1'), ('x-y', '2')]
+    digits = re.compile(r'\A[0-9]+\Z')
+
+    # ---- WSGI
+    sg = ctx.session('wsgi glue only = Sg model (CONTENT_LENGTH text -> bound)', 'sgdriver')
+    oname = 'glue: a 1*DIGIT Content-Length is the bound exactly; the bound is never negative; a text without digits declares nothing; no header = no body (WSGI) / until the final event (ASGI)'
+    for _ in range(ctx.n(2500, 40000)):
+        text = text_for()
+        hdrs = {}
+        for hn, hv in rnd.sample(OTHER, rnd.randint(0, 4)):
+            hdrs[hn] = hv
+        env = ft.create_environ(method=rnd.choice(['POST', 'PUT', 'GET']), path='/', headers=hdrs)
+        env.pop('CONTENT_LENGTH', None)
+        if text is not None:
+            env['CONTENT_LENGTH'] = text
+        if rnd.random() < 0.3:
+            env['HTTP_CONTENT_LENGTH'] = rnd.choice(['3', '-3', 'x'])        # not the CGI variable: irrelevant
+        data = b'abcdefgh'[:rnd.randint(0, 8)]
+        env['wsgi.input'] = __import__('io').BytesIO(data)
+        req = falcon.Request(env)
+        s = req.bounded_stream
+        b = s._bytes_remaining
+        same = req.bounded_stream is s
+        sg.case({'content_length_text': text})
+        sg.op(f"wreq {_pairs_hex((k.encode('latin-1'), v.encode('latin-1')) for k, v in env.items() if isinstance(v, str))} {hx(data)} -", 'ok')
+        sg.op('bound', f'bound {b}')
+        what = None
+        if not same: what = 'req.bounded_stream returned a different object on the second access'
+        elif not isinstance(b, int) or b < 0: what = f'negative / non-integer bound {b!r}'
+        elif text is not None and digits.match(text) and b != int(text): what = f'1*DIGIT value {text!r} gave the bound {b}'
+        elif (text is None or not re.search('[0-9]', text)) and b != 0: what = f'{text!r} declares nothing but the bound is {b}'
+        ctx.oracle(oname, what is None, what, {'stream': 'wsgi', 'content_length_text': text, 'environ': {k: v for k, v in env.items() if isinstance(v, str)}})
+        ctx.seen(('gw', text, str(sorted(hdrs.items()))), b > 0)
+        ctx.count('glue_wsgi_' + ('missing' if text is None else 'empty' if text == '' else 'digits' if digits.match(text) else 'other'))
+    sg.finish()
+
+    # ---- ASGI
+    sg = ctx.session('asgi glue only = Sg model (scope headers -> _asgi_headers -> bound / 400 / unsupported)', 'sgdriver')
+
+    async def receive():
+        raise AssertionError('receive() awaited while the stream was only being built')
+    for _ in range(ctx.n(2500, 40000)):
+        text = text_for()
+        hl = [(hn.encode(), hv.encode()) for hn, hv in (rnd.choice(OTHER) for _ in range(rnd.randint(0, 5)))]
+        texts = []
+        if text is not None:
+            if rnd.random() < 0.15:
+                texts.append(rnd.choice(['3', '-3', 'x', '', '12']))           # an earlier content-length entry: the last one is what counts
+            texts.append(text)
+        for t in texts:
+            hl.insert(rnd.randint(0, len(hl)), (b'content-length', t.encode('latin-1')))
+        if len(texts) == 2:     # keep their relative order: the generated text last
+            idx = [i for i, h in enumerate(hl) if h[0] == b'content-length']
+            hl[idx[0]], hl[idx[1]] = (b'content-length', texts[0].encode('latin-1')), (b'content-length', texts[1].encode('latin-1'))
+        ws = rnd.random() < 0.04
+        scope = ft.create_scope(method='POST', path='/')
+        scope['headers'] = hl
+        if ws: scope['type'] = 'websocket'
+        first = None
+        if rnd.random() < 0.5:
+            first = {'type': 'http.request'}
+            if rnd.random() < 0.8: first['body'] = b'abcdefgh'[:rnd.randint(0, 8)]
+            if rnd.random() < 0.7: first['more_body'] = rnd.random() < 0.6
+        fe = 'none' if first is None else f"R:{'~' if 'body' not in first else hx(first['body'])}:{'n' if 'more_body' not in first else 't' if first['more_body'] else 'f'}"
+        req = falcon.asgi.Request(scope, receive, first_event=first)
+        sg.case({'content_length_text': text, 'websocket': ws})
+        sg.op(f"areq {1 if ws else 0} {fe} {_pairs_hex(hl)}", 'ok')
+        what = None; outcome = None; s = None
+        try:
+            s = req.stream
+            outcome = 'stream'
+            sg.op('stream', f'stream rem={s._bytes_remaining} buf={hx(s._buffer)} tell={s.tell()}')
+            if req.stream is not s or req.bounded_stream is not s: what = 'req.stream / req.bounded_stream returned a different object on the second access'
+        except falcon.HTTPInvalidHeader:
+            outcome = 'invalidHeader'; sg.op('stream', 'invalidHeader')
+        except UnsupportedError:
+            outcome = 'unsupported'; sg.op('stream', 'unsupported')
+        if ws:
+            if outcome != 'unsupported': what = f'WebSocket handshake: req.stream gave {outcome}'
+        elif what is None:
+            if outcome == 'unsupported': what = 'UnsupportedError on an http scope'
+            elif s is not None and (s._bytes_remaining < 0 or s.tell() != 0): what = f'negative budget {s._bytes_remaining} / tell() {s.tell()} at construction'
+            elif len(texts) > 1: pass       # two differing content-length entries: which one counts (the last) is the model's business (correspondence), not the statement's
+            elif text is not None and digits.match(text):
+                if s is None: what = f'1*DIGIT value {text!r} was refused'
+                elif first is None and s._bytes_remaining != int(text): what = f'1*DIGIT value {text!r} gave the budget {s._bytes_remaining}'
+                elif first is not None and len(s._buffer) + s._bytes_remaining > int(text): what = f'1*DIGIT value {text!r}: buffer {len(s._buffer)} + budget {s._bytes_remaining} exceed it'
+            elif text is None:
+                if s is None: what = 'no content-length header, but req.stream raised'
+                elif first is None and s._bytes_remaining != 2**63: what = f'no content-length header gave the budget {s._bytes_remaining}'
+            elif text != '' and not re.search('[0-9]', text) and s is not None: what = f'{text!r} declares nothing but a stream was built (budget {s._bytes_remaining})'
+        ctx.oracle(oname, what is None, what, {'stream': 'asgi', 'content_length_text': text, 'headers': hl, 'first_event': first, 'websocket': ws})
+        ctx.seen(('ga', text, str(hl), fe, ws), s is not None and (s._bytes_remaining > 0 or bool(s._buffer)))
+        ctx.count('glue_asgi_' + (outcome or 'none'))
+    sg.finish()
 
 LEVEL_TEXT = ('Machine-checked refinement proofs (Lean 4): the WSGI BoundedStream model refines a flat cursor over body[:Content-Length] for every history of '
               'read/readline/readlines/next/exhaust, every body, declared length and short-read pattern (history_refines_cursor, never_overreads); the ASGI '
               'BoundedStream model does so for read(n)/readall/exhaust/iteration-with-abandonment over every event shape, chunking and disconnect position. '
-              'The hand-written models are tied to falcon/stream.py and falcon/asgi/stream.py on every run by a differential correspondence (same op lines to the '
-              'real classes, also via falcon.Request, and to the compiled model), and an independent oracle written from the statement decides failing inputs.')
-LEVEL_NOTE = ('Trusted: Lean kernel + standard axioms; the correspondence harness and oracle; file-object semantics of wsgi.input as modelled. '
-              'close()/closed-stream and second-iteration guards are carried by correspondence+oracle only.')
+              'The glue that computes the declared length from the request is modelled and proved too (Sg): for EVERY Content-Length text the bound handed to the stream is '
+              'what the text declares (1*DIGIT and the exactly characterised liberal int() spellings), 0 on WSGI / None or HTTPInvalidHeader on ASGI otherwise, never negative, '
+              'independent of all other headers; and the history theorems are instantiated at that bound for the stream obtained THROUGH the request object (lazy caching included), '
+              'so the statement holds end to end from the header text (wsgi_/asgi_request_stream_refines_cursor). '
+              'The hand-written models are tied to falcon/stream.py, falcon/asgi/stream.py, falcon/request.py and falcon/asgi/request.py on every run by differential correspondences '
+              '(same op lines to the real classes and to the compiled models; via falcon.Request / falcon.asgi.Request the header text, environ / scope headers go to the request-level model), '
+              'and independent oracles written from the statement decide failing inputs.')
+LEVEL_NOTE = ('Trusted: Lean kernel + standard axioms; the correspondence harness and oracle; file-object semantics of wsgi.input as modelled; Python int() as modelled by Hp.pyIntW; '
+              'the server-made environ / scope. close()/closed-stream and second-iteration guards are carried by correspondence+oracle only.')
 TECHNIQUE = 'Lean 4 refinement proof (stream model -> flat cursor) + differential correspondence model vs. real code + statement oracle'
